@@ -1300,17 +1300,16 @@ def direct_cases(chk, tier, rng):
                     or np.max(np.abs(Xq - Qq @ (Qq.T @ Xq)), initial=0.0) > 1e-9 * sc:
                 chk.finding("tensorly.tenalg.svd.randomized_svd", meta_, "a tl.qr answer does not meet the reduced-QR contract (shape / orthonormal columns / X = Q Q^T X)", "C05_qr_contract")
                 break
-        mx_, mn_ = max(d1, d2), min(d1, d2)
+        mx_ = max(d1, d2)
         k_ = mx_ if n is None else min(n, mx_)
         nd_ = min(k_ + n_over, mx_)
-        transposed_ = (d1 > d2 and k_ > min(mn_, nd_)) or (d1 < d2 and k_ < min(mn_, nd_))
-        A_ = M.T if transposed_ else M
         Qf = qrs[-1][1]
+        # which of M / M^T the range finder ran on is read off the shape of Q (the branch choice itself is tied by the ast tie and
+        # the Coq correspondence, not here); square matrices are never transposed by the code
+        A_ = M.T if (d1 != d2 and Qf.shape[0] == d2) else M
         if Qf.shape[0] == A_.shape[0] and nd_ >= num_rank(np.linalg.svd(M, compute_uv=False)):
             if np.max(np.abs(A_ - Qf @ (Qf.T @ A_)), initial=0.0) > 1e-8 * max(1.0, float(np.max(np.abs(M), initial=0.0))):
                 chk.finding("tensorly.tenalg.svd.randomized_svd", meta_, "the range finder's Q does not cover the range although n_eigenvecs + n_oversamples >= rank", "C05_range_cover")
-        elif Qf.shape[0] != A_.shape[0]:
-            chk.finding("tensorly.tenalg.svd.randomized_svd", meta_, "the last tl.qr call was not made on the (possibly transposed) matrix sketch the model expects", "C05_range_cover")
         try:
             sv_ents = []
             for (m, full, ans) in svds:
